@@ -1,7 +1,11 @@
 #!/bin/bash
-# MANIFEST.setup_cmd: build the whole Coq development from files on disk (full .vo build).
-set -e
-cd "$(dirname "$0")/coq"
+# MANIFEST.setup_cmd: build the whole Coq development from files on disk (full .vo build, no -vos).
+# Every check re-builds its own targets and reports a broken proof itself, so a failure of an
+# unrelated file here must not stop the others: make -k, exit 0.
+cd "$(dirname "$0")" || exit 1
+/venv/bin/python -c "import sys; sys.path.insert(0,'harness'); import common; common.gen_coqproject()" 2>&1 | grep -v -i conda
+cd coq || exit 1
 coq_makefile -f _CoqProject -o Makefile > /dev/null
-timeout 3000 make -j16 2>&1 | grep -v -i "conda" | tail -5
+timeout 5000 make -k -j16 2>&1 | grep -v -i "conda" | tail -15
 echo "setup done"
+exit 0
